@@ -512,6 +512,10 @@ func (s *sg) constFloat(d int) *Expr {
 	if s.law == "tick" && op == "-" {
 		op = "+"
 	}
+	if op == "/" {
+		// the divisor is a non-zero literal: no Inf/NaN constants
+		return g.paren(&Expr{K: "bin", Op: op, A: []*Expr{s.constFloat(d - 1), s.constFloat(0)}})
+	}
 	return g.paren(&Expr{K: "bin", Op: op, A: []*Expr{s.constFloat(d - 1), s.constFloat(d - 1)}})
 }
 
@@ -731,7 +735,9 @@ func (s *sg) templateDecl() {
 		s.vars["dur"] = append(s.vars["dur"], name)
 	case "lambda":
 		o := newOut(s.t, 0, false)
-		e := (&eg{t: s.t}).boolean(2)
+		g := s.eg()
+		g.vars, g.badVars = nil, nil
+		e := g.boolean(2)
 		o.expr(e)
 		v.Val = o.b.String()
 		s.vars["lbool"] = append(s.vars["lbool"], name)
